@@ -15,7 +15,7 @@ from vfw.ctx import Mismatch
 
 PROPERTY = "C16"
 
-DISTURBERS = ["none", "class-with-clashing-state-ids", "sibling-with-async-listener", "other-driven-inside-callback", "sibling-other-start-value", "define-same-names", "drive-same-names", "second-instance", "subclass-new-event", "subclass-any", "define-other-signature-lambda"]
+DISTURBERS = ["none", "class-with-clashing-state-ids", "sibling-with-async-listener", "other-driven-inside-callback", "sibling-other-start-value", "define-same-names", "drive-same-names", "second-instance", "subclass-new-event", "subclass-any", "define-other-signature-lambda", "drive-same-names-refusing"]
 
 
 def make_A():
@@ -113,8 +113,28 @@ def make_B_kwonly():
 NEXT = {("a", True): "b", ("a", False): "c", ("b", None): "c", ("c", None): "a"}
 
 
+def make_B_refusing():
+    """An unrelated class with A's name and equally declared states (same repr) that does NOT handle `go` in `a`."""
+    from statemachine import State, StateMachine
+
+    def build():
+        class A(StateMachine):  # noqa: F811
+            a = State(initial=True)
+            b = State()
+            c = State()
+            start = a.to(b)
+            go = b.to(c) | c.to(a)
+            back = a.to(c)
+
+        return A
+
+    R = build()
+    R.__qualname__ = "make_A.<locals>.A"
+    return R
+
+
 def tasks(tier):
-    out = []
+    out = [{"kind": "model-guard", "d1": 0, "d2": 0}]
     for d1 in range(len(DISTURBERS)):
         for d2 in range(len(DISTURBERS)):
             if tier == "quick" and d1 != 0 and d2 != 0 and d1 != d2 and (d1 + d2) % 3:
@@ -131,11 +151,11 @@ BOUNDS = {
     "quick": "machine A (3 states, guarded + fallback candidates, callbacks taking event arguments positionally and keyword-only) driven by 3 `go` events; before "
     "each of the first two events one disturber out of {none, define an unrelated class with A's qualified class and method names but other signatures, define and "
     "drive it, create and drive a second A (between A's events, and from inside one of A's own callbacks), create siblings with other start_value, define a subclass of A that adds an event on A's states, define a subclass using from_.any(), define a lambda-bearing "
-    "class}; optionally another machine over a model of the same class but other instance-level hooks created first; an instance of A created after all disturbances is checked as well; disturbers also: an unrelated class whose state ids equal A's guard/callback names, a sibling A with a coroutine listener; a sample of the 11x11 disturber pairs; A's trace, states, allowed events, argument binding and result compared with A alone.",
-    "thorough": "all 121 disturber pairs.",
+    "class}; optionally another machine over a model of the same class but other instance-level hooks created first; an instance of A created after all disturbances is checked as well; disturbers also: an unrelated class whose state ids equal A's guard/callback names, a sibling A with a coroutine listener; an unrelated class with A's name and equally declared states that refuses `go` (and an unknown event) in `a` and is driven; a sample of the 12x12 disturber pairs; a separate scenario: a class whose guard/action names are provided only by the model or a listener - an instance without a provider is rejected whether it is the first instance or follows good (driven) ones, and good instances obey their own model's guard; A's trace, states, allowed events, argument binding and result compared with A alone.",
+    "thorough": "all 144 disturber pairs.",
 }
 OUTSIDE = "interleavings across OS threads; more than two disturbers per history; pickling (C17)"
-OBLIGATIONS = ["clashing-state-ids", "async-sibling", "driven-inside-callback", "sibling-start-values", "same-names-kwonly-first", "model-of-same-class-before", "undisturbed", "same-names-defined", "second-instance", "subclass-defined", "binding-checked"]
+OBLIGATIONS = ["unresolvable-instance-rejected", "model-guard-decides", "same-names-refusing", "clashing-state-ids", "async-sibling", "driven-inside-callback", "sibling-start-values", "same-names-kwonly-first", "model-of-same-class-before", "undisturbed", "same-names-defined", "second-instance", "subclass-defined", "binding-checked"]
 ASSUMPTIONS = [
     "the library's process-wide signature cache is emptied (through its own clear_cache hook, when present) at the start of every path, so that a path is a complete history",
     "A's expected behaviour is a table (A alone); comparing with a re-run would share the caches under test",
@@ -155,7 +175,90 @@ def reset_process_caches():
         pass
 
 
+def run_model_guard(ctx, params):
+    """A guard given by name and provided by the model (or a listener) only: whether the constructor accepts an
+    instance depends on that instance's own model / listeners, not on the instances created before it."""
+    from statemachine import State, StateMachine
+    from statemachine.exceptions import InvalidDefinition
+
+    with ctx.notracing():
+        reset_process_caches()
+
+        class G(StateMachine):
+            a = State(initial=True)
+            b = State()
+            go = a.to(b, cond="permit")
+            stay = b.to.itself(on="note_it")
+
+    class Good:
+        def __init__(self, v):
+            self.state = None
+            self.v = v
+            self.notes = 0
+
+        def permit(self):
+            return self.v
+
+        def note_it(self):
+            self.notes += 1
+
+    class Bad:
+        def __init__(self):
+            self.state = None
+
+    via = ["model", "listener"][ctx.choose(2, "via")]
+    order = ["bad-first", "good-first", "good-driven-first", "bad-good-bad"][ctx.choose(4, "order")]
+
+    def make(good, v=None):
+        if via == "model":
+            return G(Good(v) if good else Bad())
+        return G(listeners=[Good(v) if good else Bad()])
+
+    def expect_rejected(when):
+        try:
+            sm_ = make(False)
+        except InvalidDefinition:
+            ctx.cover("unresolvable-instance-rejected")
+            return
+        where = sm_.current_state.id
+        try:
+            sm_.send("go")
+        except Exception:  # noqa: BLE001
+            pass
+        raise Mismatch(f"unresolvable-guard-accepted:{via}:{when}", f"G's guard `permit` is provided by no one for this instance ({via} without it), the constructor accepted it {when}; it started in {where} and after `go` is in {sm_.current_state.id}")
+
+    def good_works(when):
+        v = ctx.sym_bool(f"permit.{when}")
+        g = make(True, v)
+        try:
+            g.send("go")
+            moved = True
+        except g.TransitionNotAllowed:
+            moved = False
+        want = True if v else False
+        if moved != want or g.current_state.id != ("b" if want else "a"):
+            raise Mismatch(f"model-guard-ignored:{via}:{when}", f"permit={want}: moved={moved}, state {g.current_state.id}")
+        ctx.cover("model-guard-decides")
+
+    if order == "bad-first":
+        expect_rejected("as the first instance")
+        good_works("after-bad")
+    elif order == "good-first":
+        make(True, True)
+        expect_rejected("after a good instance was created")
+    elif order == "good-driven-first":
+        good_works("first")
+        expect_rejected("after a good instance was created and driven")
+        good_works("last")
+    else:
+        expect_rejected("as the first instance")
+        good_works("middle")
+        expect_rejected("after a rejected and a good instance")
+
+
 def run(ctx, params):
+    if params.get("kind") == "model-guard":
+        return run_model_guard(ctx, params)
     with ctx.notracing():
         reset_process_caches()
         A = make_A()
@@ -316,6 +419,20 @@ def disturb(ctx, d, A, done):
                 b.send("go", 1, 2)
             except (b.TransitionNotAllowed, TypeError):
                 pass
+        return
+    if d == "drive-same-names-refusing":
+        R = make_B_refusing()
+        r = R()
+        for ev in ("go", "nope"):
+            try:
+                r.send(ev)
+                raise Mismatch("same-named-class-broken", f"the unrelated class accepted {ev} in its state a")
+            except r.TransitionNotAllowed:
+                pass
+        r.send("back")
+        if r.current_state.id != "c":
+            raise Mismatch("same-named-class-broken", f"after back: {r.current_state.id}")
+        ctx.cover("same-names-refusing")
         return
     if d == "second-instance":
         other = A()
